@@ -56,7 +56,7 @@ func c14(c *core.Check) {
 // ---- R5 fonts before text
 func c14Fonts(c *core.Check) {
 	p := c.Prog
-	r := c.Rule("R5", "text reaches the backend only as drawings produced by text/draw.Context.CreateFirstLine, and in createFirstLinePango the font stored in every emitted run is the font registered with AddFont earlier on every path", 3)
+	r := c.Rule("R5", "text reaches the backend only as drawings produced by text/draw.Context.CreateFirstLine, and in createFirstLinePango the font stored in every emitted run is the font registered with AddFont earlier on every path", 1)
 	isCFL := func(v ssa.Value) bool {
 		call, ok := v.(*ssa.Call)
 		return ok && call.Call.StaticCallee() != nil && call.Call.StaticCallee().Name() == "CreateFirstLine"
@@ -217,7 +217,7 @@ func listLeaves(v ssa.Value) []ssa.Value {
 // ---- R2 page protocol
 func c14Pages(c *core.Check) {
 	p := c.Prog
-	r := c.Rule("R2", "Document.Write calls AddPage exactly once per iteration of its loop over d.Pages (the single AddPage call is in that loop, every iteration passes it, no early exit, not nested in another loop) and calls CreateAnchors exactly once, after the loop, with the anchors computed by resolveLinks", 4)
+	r := c.Rule("R2", "Document.Write calls AddPage exactly once per iteration of its loop over d.Pages (the single AddPage call is in that loop, every iteration passes it, no early exit, not nested in another loop) and calls CreateAnchors exactly once, after the loop, with the anchors computed by resolveLinks", 2)
 	w := p.Lookup("html/document.(*Document).Write")
 	if w == nil {
 		r.Anchor("html/document.(*Document).Write")
@@ -304,7 +304,7 @@ func c14Pages(c *core.Check) {
 // ---- R3 links
 func c14Links(c *core.Check) {
 	p := c.Prog
-	r := c.Rule("R3", "resolveLinks appends an anchor only when its name is not yet in the set of defined anchors and records the name before the next one is examined; it appends an internal link only when its target is in that set; gatherLinksAndBookmarks stores an anchor position only when the page has none under that name (first id wins)", 4)
+	r := c.Rule("R3", "resolveLinks appends an anchor only when its name is not yet in the set of defined anchors and records the name before the next one is examined; it appends an internal link only when its target is in that set; gatherLinksAndBookmarks stores an anchor position only when the page has none under that name (first id wins)", 2)
 	rl := p.Lookup("html/document.(*Document).resolveLinks")
 	if rl == nil {
 		r.Anchor("html/document.(*Document).resolveLinks")
@@ -493,7 +493,7 @@ var c14MetaNames = map[string]string{
 
 func c14Metadata(c *core.Check) {
 	p := c.Prog
-	r := c.Rule("R4", "Document.Write hands each backend setter the field of d.Metadata that belongs to it (SetTitle←Title, SetDescription←Description, SetCreator←Generator, SetAuthors←Authors, SetKeywords←Keywords, SetDateCreation←Created, SetDateModification←Modified); GetHtmlMetadata fills each field from the <meta name> (or <title>) that belongs to it", 13)
+	r := c.Rule("R4", "Document.Write hands each backend setter the field of d.Metadata that belongs to it (SetTitle←Title, SetDescription←Description, SetCreator←Generator, SetAuthors←Authors, SetKeywords←Keywords, SetDateCreation←Created, SetDateModification←Modified); GetHtmlMetadata fills each field from the <meta name> (or <title>) that belongs to it", 12)
 	w := p.Lookup("html/document.(*Document).Write")
 	if w == nil {
 		r.Anchor("html/document.(*Document).Write")
@@ -733,7 +733,7 @@ var c14CountNotes = map[string]string{
 // c14Bookmarks: the outline is one tree over the whole document, not one per page.
 func c14Bookmarks(c *core.Check) {
 	p := c.Prog
-	r := c.Rule("R8", "the bookmark outline is built across pages: in makeBookmarkTree every variable carried by the loop over a page's bookmarks (the last node per depth, the previous level, the skipped levels) enters that loop with the value the loop over the pages carries — it is not re-initialised per page, which would attach the first bookmark of every page to the root whatever its level", 3)
+	r := c.Rule("R8", "the bookmark outline is built across pages: in makeBookmarkTree every variable carried by the loop over a page's bookmarks (the last node per depth, the previous level, the skipped levels) enters that loop with the value the loop over the pages carries — it is not re-initialised per page, which would attach the first bookmark of every page to the root whatever its level", 1)
 	fn := p.Method("html/document", "Document", "makeBookmarkTree")
 	if fn == nil {
 		r.Anchor("html/document.Document.makeBookmarkTree")
@@ -861,7 +861,7 @@ func c14Dashes(c *core.Check) {
 // one outline entry per page if those sets were created again for each page.
 func c14BookmarkWatch(c *core.Check) {
 	p := c.Prog
-	r := c.Rule("R11", "one bookmark per element: in layoutDocument every set keyed by element (map[*html.Node]…) is created outside the loops of the function — created in the loop over the pages it would forget the elements bookmarked on the previous pages, and a box split across pages would be bookmarked once per page", 3)
+	r := c.Rule("R11", "one bookmark per element: in layoutDocument every set keyed by element (map[*html.Node]…) is created outside the loops of the function — created in the loop over the pages it would forget the elements bookmarked on the previous pages, and a box split across pages would be bookmarked once per page", 1)
 	fn := p.Fn("html/layout", "layoutDocument")
 	if fn == nil {
 		r.Anchor("html/layout.layoutDocument")
@@ -955,7 +955,7 @@ func c14AttachmentLinks(c *core.Check) {
 // whose divisor is not a constant nor a converted count is reachable only where the divisor was compared `> 0`.
 func c14BackgroundDivisors(c *core.Check) {
 	p := c.Prog
-	r := c.Rule("R13", "no division by an image size of zero: in layoutBackgroundLayer every floating-point division whose divisor is a computed size (not a constant, not a converted count) is reachable only after that divisor was tested > 0 (`background-size: 0 auto; background-repeat: round` would hand the backend an infinite tile)", 4)
+	r := c.Rule("R13", "no division by an image size of zero: in layoutBackgroundLayer every floating-point division whose divisor is a computed size (not a constant, not a converted count) is reachable only after that divisor was tested > 0 (`background-size: 0 auto; background-repeat: round` would hand the backend an infinite tile)", 2)
 	fn := p.Fn("html/layout", "layoutBackgroundLayer")
 	if fn == nil {
 		r.Anchor("html/layout.layoutBackgroundLayer")
